@@ -185,12 +185,14 @@ func c17Parse(n int) {
 	}
 }
 
-// Verif_C17_ParseTotal: for EVERY byte string h of length 0..64 (all bytes symbolic, one path
-// family per length): newFromHash(h) and Cost(h) return an error or a value, never panic, do
+// Verif_C17_ParseTotal: for EVERY byte string h of length {0,1,2,3,7,29,58,59,60,61,64} (all bytes
+// symbolic, one path family per length; every length 0..80 in ParseTotalT): newFromHash(h) and Cost(h) return an error or a value, never panic, do
 // not modify h; acceptance implies len >= 59, '$' prefix, major <= '2', numeric cost field in
 // [4,31] and the recorded (major, minor, cost, salt, hash) are the fields of h; every
 // well-formed $2$/$2a$/$2b$/$2y$ hash of >= 60 bytes with cost digits in range is accepted.
-func Verif_C17_ParseTotal() { c17Parse(verifrt.Choose(0, 64)) }
+func Verif_C17_ParseTotal() {
+	c17Parse([]int{0, 1, 2, 3, 7, 29, 58, 59, 60, 61, 64}[verifrt.Choose(0, 10)])
+}
 
 // Verif_C17_ParseTotalT: lengths 0..80.
 func Verif_C17_ParseTotalT() { c17Parse(verifrt.Choose(0, 80)) }
